@@ -8,6 +8,8 @@
  * configuration file takes precedence". */
 #include <config.h>
 #include "dbus/dbus-internals.h"
+#include <stdlib.h>
+#include <string.h>
 #include VERIF_TU
 _Bool nondet_bool(void); int nondet_int(void); unsigned nondet_unsigned(void);
 #define PRE(c, what) __CPROVER_assert((c), "precondition of " what)
